@@ -3765,3 +3765,174 @@ let blk_of_rb rb =
      | None -> ts0); b_bpi = (vn rb.r_bpi); b_bp = rb.r_bp; b_stats =
     rb.r_stats; b_tb = (tables_of_tbs rb.r_tables); b_qrs = rb.r_qrs;
     b_aecs = rb.r_aecs; b_mms = rb.r_mms }
+
+type path =
+| Part of n
+| Final of n
+| Fd of n
+
+type event =
+| EOpen of path
+| EWrite of path * n list
+| EClose of path
+| ERename of n
+
+type wop =
+| WWrite of n list
+| WRotate of n
+
+(** val named_step : n -> wop -> n * event list **)
+
+let named_step cur = function
+| WWrite bs -> (cur, ((EWrite ((Part cur), bs)) :: []))
+| WRotate n0 ->
+  (n0, ((EClose (Part cur)) :: ((ERename cur) :: ((EOpen (Part n0)) :: []))))
+
+(** val named_destroy : n -> event list **)
+
+let named_destroy cur =
+  (EClose (Part cur)) :: ((ERename cur) :: [])
+
+(** val fd_step : n -> wop -> n * event list **)
+
+let fd_step cur = function
+| WWrite bs -> (cur, ((EWrite ((Fd cur), bs)) :: []))
+| WRotate n0 -> (n0, ((EClose (Fd cur)) :: []))
+
+(** val fd_destroy : n -> event list **)
+
+let fd_destroy cur =
+  (EClose (Fd cur)) :: []
+
+(** val run_steps :
+    (n -> wop -> n * event list) -> (n -> event list) -> n -> wop list ->
+    bool -> event list **)
+
+let rec run_steps step fin cur ops destroyed =
+  match ops with
+  | [] -> if destroyed then fin cur else []
+  | o :: r ->
+    let (cur', evs) = step cur o in
+    app evs (run_steps step fin cur' r destroyed)
+
+(** val named_trace : n -> wop list -> bool -> event list **)
+
+let named_trace n0 ops destroyed =
+  (EOpen (Part n0)) :: (run_steps named_step named_destroy n0 ops destroyed)
+
+(** val fd_trace : n -> wop list -> bool -> event list **)
+
+let fd_trace n0 ops destroyed =
+  run_steps fd_step fd_destroy n0 ops destroyed
+
+(** val outputs_of : n -> n list -> wop list -> bool -> (n * n list) list **)
+
+let rec outputs_of cur acc ops destroyed =
+  match ops with
+  | [] -> if destroyed then (cur, acc) :: [] else []
+  | w :: r ->
+    (match w with
+     | WWrite bs -> outputs_of cur (app acc bs) r destroyed
+     | WRotate n0 -> (cur, acc) :: (outputs_of n0 [] r destroyed))
+
+(** val czip :
+    'a1 -> ('a1 -> n list -> 'a1 * n list) -> ('a1 -> n list) -> 'a1 -> wop
+    list -> bool -> wop list **)
+
+let rec czip cinit crun cfinish s ops destroyed =
+  match ops with
+  | [] -> if destroyed then (WWrite (cfinish s)) :: [] else []
+  | w :: r ->
+    (match w with
+     | WWrite bs ->
+       let (s', out) = crun s bs in
+       (WWrite out) :: (czip cinit crun cfinish s' r destroyed)
+     | WRotate n0 ->
+       (WWrite (cfinish s)) :: ((WRotate
+         n0) :: (czip cinit crun cfinish cinit r destroyed)))
+
+type wcall =
+| CWrite of n list
+| CRotate of n
+
+type outcome =
+| Done
+| Threw
+
+type fout = { stored0 : n list; intended : n list; room : n }
+
+(** val fout_new : n -> fout **)
+
+let fout_new budget =
+  { stored0 = []; intended = []; room = budget }
+
+(** val fd_write : fout -> n list -> fout * outcome **)
+
+let fd_write o bs =
+  let n0 = N.of_nat (length bs) in
+  if N.leb n0 o.room
+  then ({ stored0 = (app o.stored0 bs); intended = (app o.intended bs);
+         room = (N.sub o.room n0) }, Done)
+  else ({ stored0 = (app o.stored0 (firstn (N.to_nat o.room) bs)); intended =
+         (app o.intended bs); room = N0 }, Threw)
+
+type nout = { n_out : fout; n_bad : bool }
+
+(** val named_write : nout -> n list -> nout * outcome **)
+
+let named_write o bs =
+  let f = o.n_out in
+  let n0 = N.of_nat (length bs) in
+  if o.n_bad
+  then ({ n_out = { stored0 = f.stored0; intended = (app f.intended bs);
+         room = f.room }; n_bad = true }, Done)
+  else if N.leb n0 f.room
+       then ({ n_out = { stored0 = (app f.stored0 bs); intended =
+              (app f.intended bs); room = (N.sub f.room n0) }; n_bad =
+              false }, Done)
+       else ({ n_out = { stored0 =
+              (app f.stored0 (firstn (N.to_nat f.room) bs)); intended =
+              (app f.intended bs); room = N0 }; n_bad = true }, Done)
+
+(** val fd_calls : fout -> wcall list -> (fout list * fout) * outcome list **)
+
+let rec fd_calls cur = function
+| [] -> (([], cur), [])
+| w :: r ->
+  (match w with
+   | CWrite bs ->
+     let (cur', oc) = fd_write cur bs in
+     let (p, ocs) = fd_calls cur' r in (p, (oc :: ocs))
+   | CRotate b ->
+     let (p, ocs) = fd_calls (fout_new b) r in
+     let (closed, last) = p in (((cur :: closed), last), (Done :: ocs)))
+
+(** val named_calls :
+    nout -> wcall list -> (fout list * fout) * outcome list **)
+
+let rec named_calls cur = function
+| [] -> (([], cur.n_out), [])
+| w :: r ->
+  (match w with
+   | CWrite bs ->
+     let (cur', oc) = named_write cur bs in
+     let (p, ocs) = named_calls cur' r in (p, (oc :: ocs))
+   | CRotate b ->
+     let (p, ocs) = named_calls { n_out = (fout_new b); n_bad = false } r in
+     let (closed, last) = p in (((cur.n_out :: closed), last), (Done :: ocs)))
+
+(** val lost : fout -> bool **)
+
+let lost o =
+  negb (N.eqb (N.of_nat (length o.stored0)) (N.of_nat (length o.intended)))
+
+(** val enc_rotate_fd : fout -> n list -> n -> (fout * n list) * outcome **)
+
+let enc_rotate_fd cur staged budget =
+  match staged with
+  | [] -> (((fout_new budget), []), Done)
+  | _ :: _ ->
+    let (cur', oc) = fd_write cur staged in
+    (match oc with
+     | Done -> (((fout_new budget), []), Done)
+     | Threw -> ((cur', staged), Threw))
